@@ -10,7 +10,8 @@
    deeper descendants are covered by the recursion of the same function and checked by K-actor, not by a separate
    induction over the tree.
    REFUTED at HEAD: 'the parent's stop() stops every child it spawned' - a child whose explicit id was reused while it
-   was alive is orphaned (finding F30), kernel-checked witness below. *)
+   was alive is orphaned (finding F30), kernel-checked witnesses below.  (Sync engine, thread-managed child: since the
+   repair of F40 its runner thread stops it at the next poll - runner_polls - but it stays in the registry.) *)
 From XSM Require Import Model.Actors Proofs.ActorP.
 
 (* addressing: a resolved target is the actor registered under that systemId, one of MY children, or my parent *)
@@ -101,14 +102,53 @@ Theorem C15_stop_idempotent : forall eng i s, a_running (aget s i) = false -> st
 Proof. exact stop_idempotent. Qed.
 Print Assumptions C15_stop_idempotent.
 
+(* the runner thread of a thread-managed child (sync engine): its poll never starts anybody and is the identity on the
+   async engine, while the clock stands still, and as long as every thread-managed child still is its parent's entry *)
+Theorem C15_runner_poll_never_revives : forall eng t s x,
+  a_running (aget (runner_polls eng t s) x) = true -> a_running (aget s x) = true.
+Proof. exact runner_polls_never_revives. Qed.
+Print Assumptions C15_runner_poll_never_revives.
+Theorem C15_runner_poll_touches_orphans_only : forall eng t s,
+  (eng = AAsync \/ t <= now s \/ forall i, orphaned s i = false) -> runner_polls eng t s = s.
+Proof. exact runner_polls_noop. Qed.
+Print Assumptions C15_runner_poll_touches_orphans_only.
+
+(* ... and it does stop every thread-managed child that is running and no longer its parent's entry *)
+Theorem C15_runner_poll_stops_orphans : forall s i,
+  i < List.length (actors s) -> orphaned s i = true -> a_running (aget (reap_orphans ASync s) i) = false.
+Proof. exact reap_stops_orphans. Qed.
+Print Assumptions C15_runner_poll_stops_orphans.
+Example C15_orphan_ex :
+  let s := run_actors ASync [SDo 0 1 [OpSpawn "spawn_w" (Some "a") None]; SDo 0 2 [OpSpawn "spawn_w" (Some "a") None]] in
+  1 < List.length (actors s) /\ orphaned s 1 = true /\ orphaned s 2 = false /\ a_running (aget s 1) = true.
+Proof. vm_compute. repeat split; auto. Qed.
+(* any stop only ever removes entries from children maps and leaves ids, parents and spawn modes alone *)
+Theorem C15_stop_only_removes_entries : forall eng i s p k j,
+  dget (a_children (aget (stop eng i s) p)) k = Some j -> dget (a_children (aget s p)) k = Some j.
+Proof. intros eng i s. exact (proj1 (stop_actor_shrink _ eng i s)). Qed.
+Print Assumptions C15_stop_only_removes_entries.
+
 (* REFUTED at HEAD (finding F30): the root spawns "a" twice under the same explicit id, then stops: the first child
-   is still running and still registered *)
+   is still running and still registered - async engine, and sync engine when the first spawn was a blocking one *)
 Theorem C15_stop_cascade_refuted_for_reused_id :
-  let s := run_actors ASync [SDo 0 1 [OpSpawn "spawn_w" (Some "a") (Some "sysA")]; SDo 0 2 [OpSpawn "spawn_w" (Some "a") (Some "sysB")];
-                             SStop 0] in
+  forall eng atype, (eng, atype) = (AAsync, "spawn_w"%string) \/ (eng, atype) = (ASync, "spawn_blocking_w"%string) ->
+  let s := run_actors eng [SDo 0 1 [OpSpawn atype (Some "a") (Some "sysA")]; SAdvance 100;
+                           SDo 0 2 [OpSpawn "spawn_w" (Some "a") (Some "sysB")]; SAdvance 200; SStop 0; SAdvance 300] in
   a_parent (aget s 1) = Some 0 /\ a_running (aget s 0) = false /\ a_running (aget s 1) = true /\ dget (registry s) "sysA" = Some 1.
-Proof. vm_compute. auto. Qed.
+Proof. intros eng atype [H|H]; inversion H; subst; vm_compute; auto. Qed.
 Print Assumptions C15_stop_cascade_refuted_for_reused_id.
+(* same history, sync engine, first spawn thread-managed: the first child's runner stops it at its next poll (it is
+   stopped before the parent is), but it is never taken out of the actor-system registry - not by the poll, not by
+   the parent's stop() *)
+Theorem C15_reused_id_threaded_child_stopped_but_registered :
+  let h := [SDo 0 1 [OpSpawn "spawn_w" (Some "a") (Some "sysA")]; SAdvance 100;
+            SDo 0 2 [OpSpawn "spawn_w" (Some "a") (Some "sysB")]; SAdvance 200] in
+  let s1 := run_actors ASync h in
+  let s2 := run_actors ASync (h ++ [SStop 0; SAdvance 300]) in
+  a_running (aget s1 0) = true /\ a_running (aget s1 1) = false /\ a_running (aget s1 2) = true /\ dget (registry s1) "sysA" = Some 1 /\
+  a_running (aget s2 0) = false /\ a_running (aget s2 2) = false /\ dget (registry s2) "sysA" = Some 1 /\ dget (registry s2) "sysB" = None.
+Proof. vm_compute. repeat split; reflexivity. Qed.
+Print Assumptions C15_reused_id_threaded_child_stopped_but_registered.
 
 (* non-vacuity: prefix-related ids, an ambiguous key, a cancel that hits one of three pending sends, a stop cascade *)
 Example C15_ex :
